@@ -176,7 +176,9 @@ func CmdRunAction(c *cli.Context) error {
 		if exitCode, ok := wazero.AsExitError(err); ok {
 			os.Exit(exitCode)
 		}
+		// a trap or panic of the program is a failure of the run
 		fmt.Println(err)
+		os.Exit(1)
 	} else {
 		if len(stdout) > 0 {
 			fmt.Fprint(os.Stdout, string(stdout))
@@ -230,7 +232,9 @@ func runWasm(input string, wasmBytes, fsetBytes []byte, args ...string) error {
 		if exitCode, ok := wazero.AsExitError(err); ok {
 			os.Exit(exitCode)
 		}
+		// a trap or panic of the program is a failure of the run
 		fmt.Println(err)
+		os.Exit(1)
 		return nil
 	}
 	if len(stdout) > 0 {
